@@ -32,7 +32,7 @@ THEOREMS = ["C04_recv_contract", "C04_recv_all_exact", "C04_fuel_store_loop", "C
             "C04_reject_length", "C04_reject_size", "C04_unknown_type", "C04_size_per_type", "C04_store_loop_fails",
             "C04_sync_fails", "C04_step_fails", "C04_stored_prefix", "C04_stored_prefix_key_ok", "C04_prefix_check_translated", "C04_check_size_translated",
             "C04_check_size_reads_inside", "C04_footer_writes_inside", "C04_footer_translated", "C04_receive_path_inside",
-            "C04_error_text_len_load_inside", "C04_receive_pdu_translated_partial", "C04_receive_header_rejections_translated"]
+            "C04_error_text_len_load_inside", "C04_receive_pdu_translated_partial", "C04_receive_header_rejections_translated", "C04_check_size_on_receive_buffer"]
 CORPUS = os.path.join(vlib.VERIF, "corpus", "C04")
 MAX = L.MAX
 SESS, SERIAL = 4711, 9
